@@ -21,6 +21,9 @@ var c18Parsers = []string{
 	"uePolicyContainer.parseUEPlcSubResult", "(*uePolicyContainer.UEPolicySectionManagementResultContent).UnmarshalBinary",
 	"(*uePolicyContainer.UEPolicySectionManagementList).UnmarshalBinary", "(*uePolicyContainer.UEPolicySectionManagementResult).UnmarshalBinary",
 	"(*uePolicyContainer.UEPolicySectionManagementSubList).SetPlmnDigit", "(*uePolicyContainer.UEPolicySectionManagementSubResult).SetPlmnDigit",
+	// lengths computed from content on every encoding
+	"(*uePolicyContainer.UEPolicyPart).MarshalBinary", "(*uePolicyContainer.Instruction).MarshalBinary",
+	"(*uePolicyContainer.UEPolicySectionManagementSubList).MarshalBinary", "(*uePolicyContainer.UEPolicySectionManagementSubResult).MarshalBinary",
 }
 
 var c18Safety = []string{
@@ -30,11 +33,11 @@ var c18Safety = []string{
 	"(*uePolicyContainer.UePolDeliverySer).UePolDeliverySerEncode",
 	"(*uePolicyContainer.ManageUEPolicyCommand).EncodeManageUEPolicyCommand", "(*uePolicyContainer.ManageUEPolicyComplete).EncodeManageUEPolicyComplete",
 	"(*uePolicyContainer.ManageUEPolicyReject).EncodeManageUEPolicyReject",
-	"(*uePolicyContainer.UEPolicyPart).MarshalBinary", "(*uePolicyContainer.UEPolicySectionContents).MarshalBinary",
-	"(*uePolicyContainer.Instruction).MarshalBinary", "(*uePolicyContainer.UEPolicySectionManagementSubListContents).MarshalBinary",
-	"(*uePolicyContainer.UEPolicySectionManagementSubList).MarshalBinary", "(*uePolicyContainer.UEPolicySectionManagementListContent).MarshalBinary",
+	"(*uePolicyContainer.UEPolicySectionContents).MarshalBinary",
+	"(*uePolicyContainer.UEPolicySectionManagementSubListContents).MarshalBinary",
+	"(*uePolicyContainer.UEPolicySectionManagementListContent).MarshalBinary",
 	"(*uePolicyContainer.Result).MarshalBinary", "(*uePolicyContainer.UEPolicySectionManagementSubResultContents).MarshalBinary",
-	"(*uePolicyContainer.UEPolicySectionManagementSubResult).MarshalBinary", "(*uePolicyContainer.UEPolicySectionManagementResultContent).MarshalBinary",
+	"(*uePolicyContainer.UEPolicySectionManagementResultContent).MarshalBinary",
 	"(*uePolicyContainer.UEPolicySectionManagementList).MarshalBinary", "(*uePolicyContainer.UEPolicySectionManagementResult).MarshalBinary",
 	"(*uePolicyContainer.UEPolicySectionManagementList).GetUEPolicySectionManagementListContent", "(*uePolicyContainer.UEPolicySectionManagementList).SetUEPolicySectionManagementListContent",
 	"(*uePolicyContainer.UEPolicySectionManagementResult).GetUEPolicySectionManagementResultContent", "(*uePolicyContainer.UEPolicySectionManagementResult).SetUEPolicySectionManagementResultContent",
@@ -90,5 +93,5 @@ func c18(w *core.World, rep *core.Report) {
 	rep.AddUnique(&rep.Assumptions,
 		"MCC/MNC are passed as integers by this API: an MCC below 100 or a 3-digit MNC below 100 (leading zeros) cannot be expressed; SetPlmnDigit is specified for the values it accepts",
 		"encoders are specified for messages whose body is present (a nil body with the message type set is outside the statement)",
-		"a policy part whose Len field was set by hand to something other than 1 + len(contents) is not 'built through the API' (MarshalBinary computes the length only when it is 0)")
+		"the round-trip lemmas build fresh structures; that a re-encoding after a change recomputes every length is the separate contract on the MarshalBinary functions")
 }
